@@ -195,7 +195,7 @@ def statement_family():
     # invocations that are directly the value of an argument of a bridge / transform / send statement (with and without
     # assignment): the keyword names the invocation that IS the statement, an argument stays the operand it is everywhere
     # else -- an implicit invocation, an instance invocation, a function invocation; also parenthesised, as an operand of
-    # an operator, and as an argument of an argument.  The keyword-less forms take the same arguments.
+    # an operator, and as an argument of an argument.  A keyword-less assignment takes the same arguments.
     g = ('ncall', 'NS', 'g', [])
     args = [('a', g), ('b', ('icall', V('y'), 'op', [('s', g)])), ('c', ('fcall', 'f', [])),
             ('d', ('grp', ('ncall', 'ARCH', 'h', [('p', g)]))), ('e', ('bin', '+', g, I(1)))]
